@@ -511,3 +511,65 @@ func VH_C06_rejected_fragment() {
 	}
 	vReach("end")
 }
+
+// H-C02-disclosed: forgery with the MAC keys the receiver itself has made
+// public.  B has verified messages under every key pair it still accepts; A
+// sends two messages in a row; B reads the first and answers (whatever B
+// discloses in that answer is public knowledge from then on); the attacker
+// alters the second message in flight and re-MACs it with each disclosed key:
+// B delivers nothing.
+//
+// vh: prop=C02 expect=end unwind=700 timeout=60000
+func VH_C02_disclosed() {
+	v3 := vChoose("v3", 2) == 1
+	vhUseSmallGroup()
+	r := vhSymRatchetLite()
+	a, b := vhEncryptedPair(v3, r)
+	vhFixOrder(a, b)
+	vhDistinctKeys(a, b)
+	vhNoHeartbeat(a, b)
+	kb := &b.c.keys
+	for _, o := range []uint32{r.oB, r.oB - 1} {
+		for _, t := range []uint32{r.tB, r.tB - 1} {
+			if t >= 1 && (t == r.tB || kb.theirPreviousDHPubKey != nil) {
+				kb.calculateDHSessionKeys(o, t, b.c.version)
+			}
+		}
+	}
+	m1, e1 := a.c.Send([]byte("x"))
+	m2, e2 := a.c.Send([]byte("y"))
+	vAssume(vAll(e1 == nil, e2 == nil, len(m1) == 1, len(m2) == 1))
+	p1, _, e3 := b.c.Receive(m1[0])
+	vAssume(vAll(e3 == nil, len(p1) == 1))
+	var disclosed []macKey
+	for _, k := range kb.oldMACKeys {
+		disclosed = append(disclosed, macKey(makeCopy(k)))
+	}
+	rep, e4 := b.c.Send([]byte("z"))
+	vAssume(vAll(e4 == nil, len(rep) == 1))
+	// (what travels in rep is exactly that list: C10 data-message layout, C19)
+	raw, derr := decode(encodedMessage(m2[0]))
+	vAssume(derr == nil)
+	h := 3
+	if v3 {
+		h = 11
+	}
+	m := int(raw[h+1+8+3]) // length of the DH value as written (natively it may have leading zero bytes stripped)
+	encLen := int(raw[h+1+8+4+m+8+3]) | int(raw[h+1+8+4+m+8+2])<<8
+	encStart := h + 1 + 8 + 4 + m + 8 + 4
+	macStart := encStart + encLen
+	vObserve("disclosed", len(disclosed))
+	delta := vU8("delta")
+	vAssume(delta != 0)
+	for _, k := range disclosed {
+		forged := makeCopy(raw)
+		forged[encStart] ^= delta
+		copy(forged[macStart:macStart+20], rHMAC1(k, forged[:macStart]))
+		plain, _, _ := b.c.receiveDecoded(forged)
+		vAssert("O1-forgery-with-disclosed-key-refused", plain == nil)
+	}
+	// the untouched message is still read
+	p2, _, e5 := b.c.receiveDecoded(makeCopy(raw))
+	vAssert("O2-genuine-second-message-delivered", vAll(e5 == nil, len(p2) == 1))
+	vReach("end")
+}
